@@ -31,7 +31,7 @@ fn families(t: Tier) -> Vec<(&'static str, u64)> {
     vec![("subsets", t.n(126 * 40, 126 * 10_000)), ("passes", t.n(3_000, 500_000))]
 }
 fn floors(_t: Tier) -> Vec<(&'static str, u64)> {
-    vec![("evaluations", 6_000), ("updates", 8_000), ("parameters_checked_updated", 15_000), ("parameters_checked_frozen", 10_000), ("stale_graph_passes_after_update", 600), ("fresh_graph_passes_after_update", 300)]
+    vec![("evaluations", 6_000), ("updates", 8_000), ("parameters_checked_updated", 15_000), ("parameters_checked_frozen", 10_000), ("stale_graph_passes_after_update", 600), ("fresh_graph_passes_after_update", 300), ("optimizer_reused_after_another_list", 1_000)]
 }
 
 struct Param {
@@ -46,10 +46,9 @@ struct Param {
     ambiguous: bool,
 }
 
-fn check_update(ctx: &mut Ctx, fam: &str, params: &mut Vec<Param>, lr: f64, desc: &str) -> bool {
+fn check_update(ctx: &mut Ctx, fam: &str, gd: &GradientDescent, params: &mut Vec<Param>, lr: f64, desc: &str) -> bool {
     let lrf = lr as Float;
     let res = guard(|| {
-        let gd = GradientDescent::new(lrf);
         gd.update(params.iter_mut().map(|p| &mut p.a).collect());
     });
     ctx.count("updates", 1);
@@ -150,13 +149,31 @@ pub fn run_case(ctx: &mut Ctx, fam: &str, k: u64, r: &mut Rng) {
             n += 1;
         }
         let subset = idx as usize;
-        let lr = *r.pick(&[0.0, 0.125, 0.25, 0.5, 1.0, 0.1, 0.37]);
+        let lr = *r.pick(&[0.0, 0.125, 0.25, 0.5, 1.0, 0.1, 0.37, -0.5, -0.1]);
+        // one optimizer object serves every update of the case - and, half of the time, first another parameter list
+        // with the same number of entries and other sizes (a hidden-size sweep with one optimizer)
+        let gd = GradientDescent::new(lr as Float);
         let dyadic = r.chance(1, 2);
         let shapes: Vec<Vec<usize>> = (0..n).map(|_| if r.chance(1, 3) { partner(r, &[2, 3, 1, 2]) } else { rand_shape(r, 4, 3) }).collect();
         let desc = format!("n={} gradient-subset={:0width$b} shapes={:?} lr={}", n, subset, shapes, lr, width = n);
         ctx.case(&format!("subsets|{}|{:b}|{:?}|{}", n, subset, shapes, lr), n >= 2 && subset != 0 && subset & 1 == 0);
         ctx.hist("n_parameters", &n.to_string());
         ctx.sample(&format!("n{}", n), || desc.clone());
+        if r.chance(1, 2) {
+            let mut decoy: Vec<Param> = (0..n)
+                .map(|_| {
+                    let ds = rand_shape(r, 3, 4);
+                    let m = numel(&ds);
+                    let a = arr(&ds, &(0..m).map(|_| 0.25 * r.int(-16, 16)).collect::<Vec<f64>>()).tracked();
+                    *a.gradient_mut() = Some(arr(&ds, &(0..m).map(|_| 0.25 * r.int(-16, 16)).collect::<Vec<f64>>()));
+                    snapshot(a)
+                })
+                .collect();
+            ctx.count("optimizer_reused_after_another_list", 1);
+            if !check_update(ctx, fam, &gd, &mut decoy, lr, &format!("{} (another list of {} parameters updated first with the same optimizer)", desc, n)) {
+                return;
+            }
+        }
         let mut params: Vec<Param> = vec![];
         let mut installed: Vec<Array> = vec![];
         for i in 0..n {
@@ -197,7 +214,7 @@ pub fn run_case(ctx: &mut Ctx, fam: &str, k: u64, r: &mut Rng) {
         }
         let rounds = if alias_at.is_some() { 1 } else { r.range(1, 4) };
         for round in 0..rounds {
-            if !check_update(ctx, fam, &mut params, lr, &format!("{} round {}", desc, round)) {
+            if !check_update(ctx, fam, &gd, &mut params, lr, &format!("{} round {}", desc, round)) {
                 break;
             }
             // next round: new gradients on a new random subset
@@ -215,7 +232,8 @@ pub fn run_case(ctx: &mut Ctx, fam: &str, k: u64, r: &mut Rng) {
         // gradients produced by real passes: y = sum_i x * p_i (+ broadcast), some parameters not used (frozen)
         let full = rand_shape(r, 3, 3);
         let n = r.range(2, 5);
-        let lr = *r.pick(&[0.5, 0.25, 1.0, 0.0]);
+        let lr = *r.pick(&[0.5, 0.25, 1.0, 0.0, -0.25]);
+        let gd = GradientDescent::new(lr as Float);
         let x = arr(&full, &rand_ints(r, numel(&full), -3, 3));
         let shapes: Vec<Vec<usize>> = (0..n).map(|_| if r.chance(1, 2) { full.clone() } else { partner(r, &full) }).collect();
         let used: Vec<bool> = (0..n).map(|_| r.chance(2, 3)).collect();
@@ -266,7 +284,7 @@ pub fn run_case(ctx: &mut Ctx, fam: &str, k: u64, r: &mut Rng) {
         }
         let mut params: Vec<Param> = ps.into_iter().map(snapshot).collect();
         let d2 = format!("{} keep_graph={} keep_grads={}", desc, keep_graph, keep_grads);
-        if !check_update(ctx, fam, &mut params, lr, &d2) {
+        if !check_update(ctx, fam, &gd, &mut params, lr, &d2) {
             return;
         }
         // the replacement is a new array: a pass over the graph recorded BEFORE the update (still alive) feeds the old
@@ -305,7 +323,7 @@ pub fn run_case(ctx: &mut Ctx, fam: &str, k: u64, r: &mut Rng) {
             // second update right away: nothing holds a gradient, nothing may move
             let arrays: Vec<Array> = params.drain(..).map(|p| p.a).collect();
             params = arrays.into_iter().map(snapshot).collect();
-            check_update(ctx, fam, &mut params, lr, &format!("{} second update after a pass over the stale graph", d2));
+            check_update(ctx, fam, &gd, &mut params, lr, &format!("{} second update after a pass over the stale graph", d2));
         }
         if fresh_pass {
             ctx.count("fresh_graph_passes_after_update", 1);
